@@ -41,6 +41,12 @@ def cases(chk):
     ]
     for c in corpus:
         yield "script", c
+    # group conversations with one damaged copy and the other recipients' receipts racing the retry request
+    for i in range(chk.scale(12, 200)):
+        na = r.choice([3, 3, 4])
+        script = [["send", r.randint(1, na), "g", 0, r.randrange(70)] for _i in range(r.randint(2, 4))]
+        yield "script", {"accts": na, "groups": [list(range(1, na + 1))], "script": script,
+                         "faults": [[r.randrange(len(script)), "corrupt"] for _i in range(r.randint(1, 2))], "restarts": [], "seed": r.randrange(1 << 30)}
     for _ in range(chk.scale(25, 800)):
         na = r.choice([2, 2, 3, 3, 4])
         groups = []
@@ -215,6 +221,7 @@ def run_case(chk, stream, case):
         hist = []
         steps = 0
         faulty = False
+        diverged = False
         while steps < 2000:
             steps += 1
             enabled = d.ask("e2e enabled").split()
@@ -295,7 +302,24 @@ def run_case(chk, stream, case):
                 chk.hit("wire:" + x.split(">")[1].split(":")[0] + (":retry" if ":retry" in x else ""))
             if norm_model_w(mW) != iW or sorted(mS.split()) != sorted(iS) or sorted(x.rstrip("0123456789") if "retry" in x else x for x in mR.split()) != sorted(iR) or mQ != iQ:
                 fails.append(corr("step:" + line.split()[0], "%s: impl W=%s S=%s R=%s Q=%s   model W=%s S=%s R=%s Q=%s" % (ctx, iW, iS, iR, iQ, norm_model_w(mW), mS, mR, mQ)))
-                return fails
+                diverged = True
+                break
+        if diverged:
+            # model and code have parted: finish the conversation on the real system alone (rest of the script, then any schedule to
+            # quiescence) and let the property's clauses decide whether this is a concrete failing input
+            for _s, a, k, dst, tok in script:
+                mid = 100 + nsend
+                nsend += 1
+                to = w.clients[dst].jid if k == "u" else w.gjid[dst]
+                ent = payloads.build(tok, MessageMetaAttributes(id=str(mid), recipient=to))
+                w.sent[str(mid)] = (a, k, dst, tok, payloads.canon(ent))
+                w.clients[a].send_entity(ent)
+                hist.append("appSend %d %s %d %d" % (a, k, dst, mid))
+            try:
+                w.srv.run(lambda acts: r.choice(acts), limit=5000)
+                hist.append("… any schedule to quiescence")
+            except RuntimeError:
+                hist.append("… (no quiescence)")
         # ------------------------------------------------------------ the property's clauses on the real run (script fully drained)
         ctx = "accounts=%d groups=%s actions=%s" % (case["accts"], case["groups"], hist)
         for mid, (a, k, dst, tok, canon) in sorted(w.sent.items()):
@@ -333,6 +357,8 @@ def run_case(chk, stream, case):
             blob = b"\x00".join(sim.node_bytes(n))
             for mid, (a, k, dst, tok, canon) in w.sent.items():
                 for sec in payloads.secrets(tok) + [canon]:
+                    if len(sec) < 12:
+                        continue          # too short to tell from a coincidence in ciphertext (empty text body)
                     if sec in blob:
                         fails.append(oracle("C03:plaintext-on-wire", "%s: a stanza leaving account %d contains plaintext of message %s" % (ctx, acct_of(j), mid)))
                         return fails
